@@ -1011,10 +1011,36 @@ class SymInt:
     __str__ = __repr__
 
     def bit_length(self):
-        raise EngineLimit("bit_length of symbolic int")
+        a = abs(self)
+        if _real_isinstance(a, int):
+            return a.bit_length()
+        r = 0
+        for k in range(a.hi.bit_length()):
+            r = sym_ite(a >= (1 << k), k + 1, r)
+        return r
+
+
+class SymText(str):
+    """placeholder text that carries a symbolic rendering (.sym = SymStr); returned by __format__ of proxies"""
+    sym = None
 
 
 def _default_format(x, spec):
+    """model of int.__format__ for the zero-padded hex specs '#0Nx' / '0Nx' when the digit count is fixed"""
+    import re
+    m = re.match(r"^(#?)0(\d+)x$", spec or "")
+    if m and _real_isinstance(x, SymInt) and x.lo >= 0:
+        pre = 2 if m.group(1) else 0
+        nd = int(m.group(2)) - pre
+        if nd > 0 and x.hi < (1 << (4 * nd)):
+            from .sbytes import SBytes, SymStr
+            items = [48, 120] if pre else []
+            for i in range(nd):
+                nib = (x >> (4 * (nd - 1 - i))) & 0xF
+                items.append(sym_ite(nib < 10, nib + 48, nib + 87))
+            t = SymText("<symhex>")
+            t.sym = SymStr(SBytes(items, False), _real_len(items))
+            return t
     return "<sym>"
 
 
